@@ -551,6 +551,10 @@ func main() {
 		mainLocks(os.Args[2:])
 		return
 	}
+	if len(os.Args) > 1 && os.Args[1] == "prepctx" {
+		mainPrepCtx(os.Args[2:])
+		return
+	}
 	if len(os.Args) > 1 && os.Args[1] == "ops" {
 		mainOps(os.Args[2:])
 		return
